@@ -24,6 +24,14 @@ type c13Case struct {
 	Norms   []string   `json:"norms"`
 	Thr     float64    `json:"thr"`
 	Unknown []c13Piece `json:"unknown"`
+	// Pad gives each value optional leading / trailing white space (0 none, 1 leading blank, 2 trailing newline,
+	// 3 both, 4 trailing blank): values are arbitrary strings, and without TrimSpace the white space is part of them.
+	Pad []int `json:"pad,omitempty"`
+	// Alone: the unknown string is exactly one planted value, nothing around it.
+	Alone bool `json:"alone,omitempty"`
+	// Sep puts a separator word between the pieces of the unknown string, so that the white space belonging to a
+	// padded value is not shared with its neighbour (copies of different values that overlap are out of domain).
+	Sep bool `json:"sep,omitempty"`
 }
 
 var c13VocabPools = map[string][]string{
@@ -76,6 +84,15 @@ func c13Gen(t *rapid.T) interface{} {
 		c.Norms = append(c.Norms, lib.PickStr(t, c13NormNames, "norm"))
 	}
 	c.Thr = lib.PickFloat(t, []float64{0.01, 0.3, 0.5, 0.8, 0.9, 1.0}, "thr")
+	if lib.IntN(t, 0, 3, "padded") == 0 {
+		c.Pad = lib.Ints(t, nv, nv, 0, 4, "pad")
+		c.Sep = lib.IntN(t, 0, 3, "sep") > 0
+	}
+	if lib.IntN(t, 0, 5, "alone") == 0 {
+		c.Alone = true
+		c.Unknown = []c13Piece{{Value: lib.IntN(t, 0, nv-1, "planted")}}
+		return c
+	}
 	np := lib.IntN(t, 1, 7, "npieces")
 	for i := 0; i < np; i++ {
 		if lib.IntN(t, 0, 2, "pieceKind") == 0 {
@@ -96,7 +113,20 @@ func c13ValueText(c *c13Case, i int) string {
 			parts = append(parts, c.Vocab[((w%len(c.Vocab))+len(c.Vocab))%len(c.Vocab)])
 		}
 	}
-	return strings.Join(parts, " ")
+	t := strings.Join(parts, " ")
+	if i < len(c.Pad) {
+		switch c.Pad[i] % 5 {
+		case 1:
+			t = " " + t
+		case 2:
+			t = t + "\n"
+		case 3:
+			t = "  " + t + " \n"
+		case 4:
+			t = t + " "
+		}
+	}
+	return t
 }
 
 func c13Check(ci interface{}) lib.Outcome {
@@ -133,7 +163,10 @@ func c13Check(ci interface{}) lib.Outcome {
 		}
 	}
 	var parts []string
-	for _, p := range c.Unknown {
+	for k, p := range c.Unknown {
+		if c.Sep && k > 0 {
+			parts = append(parts, "sepword")
+		}
 		if p.Value >= 0 {
 			parts = append(parts, values[p.Value%len(values)])
 		} else {
@@ -143,6 +176,9 @@ func c13Check(ci interface{}) lib.Outcome {
 		}
 	}
 	unknown := strings.Join(parts, " ")
+	if c.Alone && len(c.Unknown) == 1 && c.Unknown[0].Value >= 0 {
+		unknown = values[c.Unknown[0].Value%len(values)]
+	}
 	nu := norm(unknown)
 	desc := fmt.Sprintf("normalisers %v, threshold %v, values %q, unknown %q", c.Norms, c.Thr, values, unknown)
 	res := cl.MultipleMatch(unknown)
@@ -153,6 +189,31 @@ func c13Check(ci interface{}) lib.Outcome {
 		}
 		if m.Offset < 0 || m.Extent < 0 || m.Offset+m.Extent > len(nu) {
 			return lib.Outcome{Violation: fmt.Sprintf("%s: MultipleMatch reported %s at Offset %d Extent %d, outside the %d-byte normalised unknown", desc, m.Name, m.Offset, m.Extent, len(nu))}
+		}
+	}
+	// copies of different values that overlap each other in the normalised unknown are out of domain: reporting one
+	// match per region is the purpose of the de-duplication step, and the statement speaks of copies, not of overlaps
+	type occ struct{ from, to int }
+	var occs []occ
+	for _, v := range values {
+		nv := norm(v)
+		if nv == "" {
+			continue
+		}
+		for from := 0; ; {
+			k := strings.Index(nu[from:], nv)
+			if k < 0 {
+				break
+			}
+			occs = append(occs, occ{from + k, from + k + len(nv)})
+			from += k + len(nv)
+		}
+	}
+	for i := range occs {
+		for j := i + 1; j < len(occs); j++ {
+			if occs[i].from < occs[j].to && occs[j].from < occs[i].to {
+				return lib.Outcome{Skip: "copies-overlap"}
+			}
 		}
 	}
 	planted := 0
@@ -220,12 +281,18 @@ func c13Check(ci interface{}) lib.Outcome {
 	if planted > 1 {
 		classes = append(classes, "several-copies")
 	}
-	return lib.Outcome{Nontrivial: planted > 0 && (meta || nonASCII || planted > 1), FP: desc, Classes: classes,
+	if c.Alone {
+		classes = append(classes, "unknown-equals-value")
+	}
+	if len(c.Pad) > 0 {
+		classes = append(classes, "values-with-leading/trailing-white-space")
+	}
+	return lib.Outcome{Nontrivial: planted > 0 && (meta || nonASCII || planted > 1 || c.Alone || len(c.Pad) > 0), FP: desc, Classes: classes,
 		Sample: map[string]interface{}{"norms": c.Norms, "threshold": c.Thr, "values": values, "unknown": unknown, "copies": planted}}
 }
 
 func TestVerif_C13(t *testing.T) {
 	lib.Run(t, lib.Spec{ID: "C13", Part: "verbatim",
-		Rule: "vocabulary mixed from letters / digits / ASCII punctuation / regular-expression metacharacters / Unicode / invalid UTF-8; 1-8 known values of 1-60 whitespace separated tokens, each with one token unique to it (none occurs inside another); 0-3 normalisers from {FlattenWhitespace, ToLower, TrimSpace, identity}; thresholds 0.01-1; unknown = filler and planted copies separated by blanks; oracle: AddValue never panics, every verbatim copy in the normalised unknown reported as {key, 1.0, exact Offset, exact Extent}, NearestMatch(value) = {key, 1.0}, all results inside the normalised unknown with confidence in (0,1]; non-trivial = a planted copy and (metacharacters or non-ASCII or several copies)",
+		Rule: "vocabulary mixed from letters / digits / ASCII punctuation / regular-expression metacharacters / Unicode / invalid UTF-8; 1-8 known values of 1-60 whitespace separated tokens, each with one token unique to it (none occurs inside another); 0-3 normalisers from {FlattenWhitespace, ToLower, TrimSpace, identity}; thresholds 0.01-1; unknown = filler and planted copies separated by blanks, or exactly one value; values optionally with leading / trailing white space; oracle: AddValue never panics, every verbatim copy in the normalised unknown reported as {key, 1.0, exact Offset, exact Extent}, NearestMatch(value) = {key, 1.0}, all results inside the normalised unknown with confidence in (0,1]; non-trivial = a planted copy and (metacharacters or non-ASCII or several copies)",
 		New:  func() interface{} { return &c13Case{} }, Gen: c13Gen, Check: c13Check})
 }
